@@ -100,8 +100,23 @@ func record(pr *Prop, seed uint64, p *Plan, r *RunResult, v *Verdict) *RunRecord
 	if r.H != nil {
 		rec.Hash = r.H.Hash()
 		rec.Shape = r.H.Shape()
-		if ck, ok := p.Params["case_key"].(string); ok {
-			rec.Shape = shortHash(rec.Shape + ck)
+		if p != nil {
+			// the abstract trace also covers the plan's own steps (kind and instance) and which fault kinds fired
+			var sb strings.Builder
+			sb.WriteString(rec.Shape)
+			for _, a := range p.Actions {
+				fmt.Fprintf(&sb, "%s%d%s ", a.Kind, a.Inst, a.Str)
+			}
+			fk := make([]string, 0, len(rec.Fired))
+			for k := range rec.Fired {
+				fk = append(fk, k)
+			}
+			sort.Strings(fk)
+			sb.WriteString(strings.Join(fk, ","))
+			if ck, ok := p.Params["case_key"].(string); ok {
+				sb.WriteString(ck)
+			}
+			rec.Shape = shortHash(sb.String())
 		}
 		rec.Fired = map[string]int{}
 		for k, n := range r.H.Fired {
